@@ -174,14 +174,17 @@ def run(ctx):
         body = text.encode("utf-8")
         # JSONTarget directly
         tgt = J.JSONTarget()
-        for c in chunks:
-            tgt.feed(c)
-        out = tgt.close()
-        if out != text:
+
+        def feed_all():
+            for c in chunks:
+                tgt.feed(c)
+            return tgt.close()
+        k0, out = impl.outcome(feed_all)
+        if k0 != "ok" or out != text:
             ctx.violate({"body_hex": body.hex(), "chunks": [c.hex() for c in chunks], "via": "JSONTarget"},
-                        "client reassembly %r differs from the decoding of the whole %r" % (out, text), key="client-reassembly")
+                        "client reassembly %s %r differs from the decoding of the whole %r" % (k0, out, text), key="client-reassembly")
         lines.append("wclient " + " ".join(hx(c) for c in chunks))
-        impl_out.append(("text " + hs(out)) if isinstance(out, str) else ("raw " + hx(out)))
+        impl_out.append("raised " + type(out).__name__ if k0 != "ok" else (("text " + hs(out)) if isinstance(out, str) else ("raw " + hx(out))))
         # the real response parser, identity or gzip
         t = J.Transport(cfgs[0])
         if gz:
@@ -434,11 +437,14 @@ def replay(payload):
         return 0
     if case.get("via") == "JSONTarget":
         tgt = J.JSONTarget()
-        for c in case["chunks"]:
-            tgt.feed(bytes.fromhex(c))
-        out = tgt.close()
-        print("close() ->", repr(out))
-        if out != bytes.fromhex(case["body_hex"]).decode("utf-8"):
+
+        def feed_all():
+            for c in case["chunks"]:
+                tgt.feed(bytes.fromhex(c))
+            return tgt.close()
+        k0, out = impl.outcome(feed_all)
+        print("feed/close ->", k0, repr(out))
+        if k0 != "ok" or out != bytes.fromhex(case["body_hex"]).decode("utf-8"):
             print("VIOLATION reproduced")
             return 1
         return 0
